@@ -49,6 +49,7 @@ type c10cFacts struct {
 	adapter  bool
 	mismatch bool // a tensor whose byte size is not product(shape) * element size
 	rankNot2 bool // a tensor whose shape does not have exactly two dimensions
+	zeroDim  bool // a tensor with a dimension of 0
 }
 
 // c10cClassify maps the signature of a recovered panic (innermost ollama function on the stack, text
@@ -65,6 +66,8 @@ func c10cClassify(fn, msg string, f c10cFacts) string {
 		return "safetensors-data-offsets"
 	case has(fn, "Adapter).Tensors") && has(msg, "index out of range"):
 		return "adapter-tensor-rank"
+	case f.zeroDim && (has(fn, ").repack") || has(fn, ").addOne")) && has(msg, "index out of range [0] with length 0"):
+		return "empty-tensor-repack"
 	case f.mismatch && (has(msg, "Shape mismatch") || has(msg, "negative dimension") || (has(fn, "convert.safetensor.WriteTo") && has(msg, "index out of range"))):
 		return "safetensors-shape-size-mismatch"
 	case f.adapter && f.rankNot2 && has(fn, "Adapter).repack") && has(msg, "Shape mismatch"):
@@ -346,14 +349,29 @@ func c10cRun(e *c10Env, c c10hf.Case, known func(string) bool, excluded func(str
 	body := map[string]any{"model": "c10hf", "stream": &c.Stream}
 	var baseLayers []*layerGGML
 	if c.Adapter != nil {
-		dg, ok, err := upload(d.Base)
-		if err != nil {
-			return abandon(err)
+		baseFiles := map[string]string{}
+		if c.Adapter.HFBase {
+			add("hf:adapter:hfbase")
+			for _, f := range d.BaseDir {
+				dg, ok, err := upload(f.Data)
+				if err != nil {
+					return abandon(err)
+				}
+				if !ok {
+					return info, nil
+				}
+				baseFiles[f.Name] = dg
+			}
+		} else {
+			dg, ok, err := upload(d.Base)
+			if err != nil {
+				return abandon(err)
+			}
+			if !ok {
+				return info, nil
+			}
+			baseFiles["base.gguf"] = dg
 		}
-		if !ok {
-			return info, nil
-		}
-		baseFiles := map[string]string{"base.gguf": dg}
 		if c.Adapter.ViaFrom {
 			add("hf:adapter:from")
 			r, err := request("create base", http.MethodPost, "/api/create", c10JSON(map[string]any{"model": "c10base", "files": baseFiles, "stream": &f}))
@@ -379,7 +397,11 @@ func c10cRun(e *c10Env, c c10hf.Case, known func(string) bool, excluded func(str
 			add("hf:adapter:files")
 			body["files"] = baseFiles
 			var err error
-			baseLayers, err = convertModelFromFiles(baseFiles, nil, false, func(api.ProgressResponse) {})
+			if c.Adapter.HFBase {
+				baseLayers, err = convertFromSafetensors(baseFiles, nil, false, func(api.ProgressResponse) {})
+			} else {
+				baseLayers, err = convertModelFromFiles(baseFiles, nil, false, func(api.ProgressResponse) {})
+			}
 			if err != nil {
 				add("hf:adapter:base_rejected")
 			}
@@ -406,6 +428,7 @@ func c10cRun(e *c10Env, c c10hf.Case, known func(string) bool, excluded func(str
 					in := c10hf.Inspect(f.Name, f.Data)
 					facts.mismatch = facts.mismatch || in.Mismatch
 					facts.rankNot2 = facts.rankNot2 || in.RankNot2
+					facts.zeroDim = facts.zeroDim || in.ZeroDim
 				}
 			}
 			slug := c10cClassify(p.fn, p.panicMsg, facts)
